@@ -68,6 +68,20 @@ CLAIMED = {
         note="Single-threaded external polling only; activity = received bytes; backward clock jumps at function level only; behaviour "
              "flags probed from the real code each run (a regression of a repaired defect flips a flag and breaks `current_is_repaired`).",
         design="DESIGN.md §3 C10", technique="Lean 4 proof (invariant by induction over operations) + model/code correspondence + oracle"),
+    "C11": dict(
+        engine="susp",
+        text="Lean 4 proof over a model of internal_suspend_connection_ / MHD_resume_connection / resume_suspended_connections, the "
+             "select/poll/epoll traversals and the connection state machine's `suspended` guards, for every history, mode, readiness "
+             "answer and application script: lists stay consistent; a suspended connection is in no traversed list, gets no handler / "
+             "reader / recv / send and keeps its state; the next resume pass re-enters at the same state (epoll: read+write ready); both "
+             "orders of the suspend/resume race coincide; upload and reply are delivered losslessly (conservation laws); stutter "
+             "equivalence: histories with the same suspend-erased plan deliver the same reply and upload bytes. The guard table is "
+             "regenerated each run (behavioural probes + source patterns): a missing guard breaks `guards_present`. Tie: all placements "
+             "of <= 2/3 suspend points x resume delays x select/epoll x 1-2 connections, exact callback-order diff, I/O-interposing "
+             "harness, oracle against the suspends-erased run.",
+        note="HTTP parsers abstracted to symbols, one request per connection in the model, no timeouts / socket errors / "
+             "thread-per-connection; internal-thread modes and second-thread resume by canonical projection + oracle.",
+        design="DESIGN.md §3 C11", technique="Lean 4 proof (simulation / conservation laws) + behavioural guard probes + real-daemon correspondence + log oracle"),
     "C13": dict(
         engine="nonce",
         text="Lean 4 proof over a model of digestauth.c's nonce-nc map, any table size, any sequence of registrations and presentations "
